@@ -254,6 +254,38 @@ def s15_6(ctx, P):
                     bad = p_
     ctx.check(P + ':S15-6:issuer-fp-version', 'R-dom', 'an IssuerFingerprint subpacket is hashed only after its version was matched against the signature version',
               n >= 1 and bad is None, function=b.path, witness=fmt_path(b, bad) if bad else None)
+    # ... in every subpacket area the issuer lookup consults: `issuer_fingerprint()` (used by match_identity and by callers that pick
+    # the verifying key) reads the hashed AND the unhashed area, so a fingerprint of the wrong version in either one is "a
+    # mismatching issuer-fingerprint version" (RFC 9580 5.2.3.35 does not distinguish the areas)
+    AREA = r'(?:field:SignatureConfig\.|call:.*SignatureConfig::)(hashed|unhashed)_subpackets$'
+    ib = ctx.body('packet::signature::config::SignatureConfig::issuer_fingerprint')
+    consulted = set()
+    if ib is not None:
+        for i, t in ib.calls():
+            for a in t['args']:
+                for o in ib.operand_origins(a):
+                    m = re.search(AREA, o)
+                    if m:
+                        consulted.add(m.group(1))
+            m = re.search(r'SignatureConfig::(hashed|unhashed)_subpackets$', t['f'].get('fn', '') or '')
+            if m:
+                consulted.add(m.group(1))
+    checked = set()
+    vsw = [g for g, t in b.switches() if has_origin(b.switch_origins(g), r'call:.*Fingerprint::version$')]
+    for i, t in b.switches():
+        info = enum_switch_info(b, i)
+        if not info or not info[0].endswith('SubpacketData'):
+            continue
+        for j, _ in b.succ(i):
+            if 'IssuerFingerprint' in (edge_variants(b, i, j) or []) and any(g in b.reach_from([j], removed=frozenset([i])) for g in vsw):
+                for o in b.switch_origins(i):
+                    m = re.search(AREA, o)
+                    if m:
+                        checked.add(m.group(1))
+    ctx.check(P + ':S15-6:issuer-fp-version-every-area', 'R-sib', 'the issuer-fingerprint version is matched against the signature version in every subpacket area that issuer_fingerprint() reads',
+              bool(consulted) and consulted <= checked, function=b.path, table=dict(consulted=sorted(consulted), checked=sorted(checked)),
+              missing=None if (consulted and consulted <= checked) else 'issuer_fingerprint() reads the %s area(s) but the version rule only looks at %s: a fingerprint of another key version in the %s area is accepted'
+              % (sorted(consulted), sorted(checked), sorted(consulted - checked)))
     # accepted (sig version, fp version) cells
     cells = set()
     can = b.can_reach(set(sinks))
